@@ -7,13 +7,15 @@ import PvProofs.Lemmas.VownerSteps
 namespace PvProofs.VownerL
 open PvModel PvModel.Ledger PvModel.Vowner
 
-/-- The state invariant: every denom is either absent or held as one indivisible unit by one
-non-empty address, and only scopes that exist have a token. -/
+/-- The state invariant: every SCOPE denom is either absent or held as one indivisible unit by one
+non-empty address, and only scopes that exist have a token.  Nothing is asked of ordinary coin
+denoms (`isScopeDenom d = false`): accounts may hold any amounts of them. -/
 def Inv (s : State) : Prop :=
-  ∀ d, ∃ o, HolderIs s.ledger d o ∧ o ≠ some "" ∧ (o.isSome = true → hasScope s d = true)
+  ∀ d, isScopeDenom d = true →
+    ∃ o, HolderIs s.ledger d o ∧ o ≠ some "" ∧ (o.isSome = true → hasScope s d = true)
 
 theorem Inv.allHeld {s : State} (h : Inv s) : AllHeld s.ledger :=
-  fun d => let ⟨o, ho, _⟩ := h d; ⟨o, ho⟩
+  fun d hd => let ⟨o, ho, _⟩ := h d hd; ⟨o, ho⟩
 
 /-! ### The property's two authorisation conditions, as propositions -/
 
@@ -32,15 +34,15 @@ def Consents (s : State) (kind : StepKind) (signers : List Addr) (h : Addr) : Pr
 def DepositP (s : State) (signers : List Addr) (h' : Addr) : Prop :=
   ∀ m, findMarker s h' = some m → m.restricted = true → ∃ x ∈ signers, m.has x .deposit = true
 
-/-- every token whose holder differs between `s` and `s'` moved with the old holder's consent
-and, into a restricted marker, with a signer's deposit permission -/
+/-- every scope token whose holder differs between `s` and `s'` moved with the old holder's
+consent and, into a restricted marker, with a signer's deposit permission -/
 def GoodStep (s : State) (kind : StepKind) (signers : List Addr) (s' : State) : Prop :=
-  ∀ d o o', HolderIs s.ledger d o → HolderIs s'.ledger d o' → o ≠ o' →
+  ∀ d, isScopeDenom d = true → ∀ o o', HolderIs s.ledger d o → HolderIs s'.ledger d o' → o ≠ o' →
     (∀ h, o = some h → Consents s kind signers h) ∧ (∀ h', o' = some h' → DepositP s signers h')
 
 theorem goodStep_of_ledger_eq {s s' : State} (kind : StepKind) (signers : List Addr)
     (h : s'.ledger = s.ledger) : GoodStep s kind signers s' := by
-  intro d o o' ho ho' hne
+  intro d _ o o' ho ho' hne
   rw [h] at ho'
   exact absurd (holderIs_unique ho ho') hne
 
@@ -66,8 +68,8 @@ theorem DepositP.mono {s : State} {sg sg' : List Addr} {h : Addr}
 
 theorem GoodStep.mono {s s' : State} {kind : StepKind} {sg sg' : List Addr}
     (hsub : ∀ x ∈ sg, x ∈ sg') (hk : kind ≠ .send) (hg : GoodStep s kind sg s') : GoodStep s kind sg' s' := by
-  intro d o o' ho ho' hne
-  obtain ⟨h1, h2⟩ := hg d o o' ho ho' hne
+  intro d hd o o' ho ho' hne
+  obtain ⟨h1, h2⟩ := hg d hd o o' ho ho' hne
   exact ⟨fun h hh => (h1 h hh).mono hsub hk, fun h hh => (h2 h hh).mono hsub⟩
 
 theorem anyHas_iff {m : Marker} {as : List Addr} {p : Access} :
